@@ -10,7 +10,7 @@
 import FlacModel.Model.Basic
 import FlacModel.Gen.Tables
 import FlacModel.Gen.Crc
-import FlacModel.Gen.Kernels
+import FlacModel.Gen.KernelsDec
 import FlacModel.Gen.ShapesHdr
 
 namespace Flac
